@@ -25,11 +25,17 @@ var c06OptStates = []string{"v", "missing", "nil"}
 
 var c06OptNames = []string{"title", "sidebar", "slot", "toolbar", "left", "over", "v", "t-s", "vslot", "s", "o1", "default-x", "header2", "x_y"}
 
-func c06NOpt(ctx core.Ctx) int { return 3*81*2 + 3*2 + 3*2*2 + len(c06OptNames)*4*2 + 3*2 + 4*2 }
+func c06NOpt(ctx core.Ctx) int { return 3*81*2 + 3*2 + 3*2*2 + len(c06OptNames)*4*2 + 3*2 + 4*2 + 3*2 }
 
 func c06BuildOpt(i int) c06Case {
 	o := c06Opt{Entry: []string{"vue", "file"}[i%2]}
 	i /= 2
+	if i >= 3*81+3+6+len(c06OptNames)*4+3+4 {
+		// slot props bound in the long form (v-bind:n is documented as equivalent to :n)
+		o.Shape = "vbind"
+		o.Form = c06OptForms[(i-(3*81+3+6+len(c06OptNames)*4+3+4))%3]
+		return c06Case{Part: "opt", Opt: &o}
+	}
 	if i >= 3*81+3+6+len(c06OptNames)*4+3 {
 		// fallbacks that are markup with self-closed void tags in front: supplied / not supplied per slot
 		o.Shape = "fbmarkup"
@@ -171,6 +177,44 @@ func c06ExecOptFnProps(c c06Case, o *core.Obs) {
 	}
 }
 
+func c06ExecOptVBind(c c06Case, o *core.Obs) {
+	op := c.Opt
+	body := `<b data-m="row">{{ p.a }}|{{ p.b }}|{{ p.c }}</b>`
+	sup := `<template v-slot:x="p">` + body + `</template>`
+	switch op.Form {
+	case "destr":
+		sup = `<template v-slot:x="{ a, b, c }">` + strings.NewReplacer("p.a", "a", "p.b", "b", "p.c", "c").Replace(body) + `</template>`
+	case "hash":
+		sup = `<template #x="p">` + body + `</template>`
+	}
+	page := `<template include="comp.vuego" :items="items">` + sup + `</template>`
+	comp := `<ul data-m="comp"><li v-for="it in items"><slot name="x" :a="it.name" v-bind:b="it.name" v-bind:c="1 + 1">FB</slot></li></ul>`
+	files := map[string]string{"page.vuego": page, "comp.vuego": comp}
+	data := map[string]any{"items": []any{map[string]any{"name": "Ab"}, map[string]any{"name": "cDe"}}}
+	var out string
+	var err error
+	if op.Entry == "vue" {
+		out, err = renderVue(memFS(files), "page.vuego", data)
+	} else {
+		out, err = renderFile(memFS(files), "page.vuego", data)
+	}
+	o.Evals++
+	o.NT("opt-vbind", mustJSON(op))
+	o.Cell("part/opt/vbind/" + op.Form)
+	if err != nil {
+		o.Fail(c, "opt/vbind/render-error", "render failed: %v\npage: %s", err, page)
+		return
+	}
+	var got []string
+	for _, r := range oracle.Parse(out, false).ByAttr("data-m", "row") {
+		got = append(got, r.InnerText())
+	}
+	want := []string{"Ab|Ab|2", "cDe|cDe|2"}
+	if strings.Join(got, " ; ") != strings.Join(want, " ; ") {
+		o.Fail(c, "opt/vbind/long-form-prop-missing/"+op.Form, "slot props bound with :a and v-bind:b / v-bind:c: want %v, got %v\npage: %s\ncomponent: %s\noutput: %s", want, got, page, comp, out)
+	}
+}
+
 func c06ExecOptFbMarkup(c c06Case, o *core.Obs) {
 	op := c.Opt
 	supH, supD := op.Notes[0] == "h", op.Notes[1] == "d"
@@ -229,6 +273,10 @@ func c06ExecOpt(c c06Case, o *core.Obs) {
 	op := c.Opt
 	if op.Shape == "fbmarkup" {
 		c06ExecOptFbMarkup(c, o)
+		return
+	}
+	if op.Shape == "vbind" {
+		c06ExecOptVBind(c, o)
 		return
 	}
 	if op.Shape == "fnprops" {
